@@ -882,6 +882,10 @@ def main(ctx) -> int:
             evs = evaluate(ctx, cases[a:a + chunk])
             report(ctx, evs)
             diverging += [ev.case for ev in evs if ev.divs and not ev.fails]
+        # 2b. kernels regenerated from BADA/model.py (translator validation; the bridge to the model is proved in Lean)
+        from . import kernels
+
+        kernels.check(ctx, files={'BADA/model.py'})
         # 3. divergences / broken proofs without a failing clause so far: widened search for a failing input
         if (diverging or ctx.broken) and not ctx.violations:
             srng = make_rng(PID, ctx.seed, 'search')
